@@ -284,17 +284,17 @@ pub fn build(
                     }
                 }
 
-                vftable_functions = Some(
-                    vftable::convert_grammar_functions_to_semantic_functions(
-                        &semantic.type_registry,
-                        module,
-                        size,
-                        functions,
-                    )
-                    .with_context(|| {
-                        format!("while building vftable for type `{resolvee_path}`")
-                    })?,
-                );
+                let Some(functions) = vftable::convert_grammar_functions_to_semantic_functions(
+                    &semantic.type_registry,
+                    module,
+                    size,
+                    functions,
+                )
+                .with_context(|| format!("while building vftable for type `{resolvee_path}`"))?
+                else {
+                    return Ok(None);
+                };
+                vftable_functions = Some(functions);
             }
         }
     }
@@ -372,14 +372,17 @@ pub fn build(
                 );
             }
 
-            let function =
+            let Some(function) =
                 function::build(&semantic.type_registry, &module.scope(), false, function)
                     .with_context(|| {
                         format!(
                             "while building impl function `{}` for type `{resolvee_path}`",
                             function.name
                         )
-                    })?;
+                    })?
+            else {
+                return Ok(None);
+            };
             associated_functions_used_names.insert(function.name.clone());
             associated_functions.push(function);
         }
